@@ -29,4 +29,6 @@ func init() {
 	// spending one output twice creates value
 	shareRow("C02", "D2-two-txns", "C01")
 	shareRow("C02", "D3-ephemeral", "C01")
+	// a resolved contract that stays an unresolved member is also a membership failure
+	shareRow("C02", "D5-v2-revise-renew-then-again", "C04")
 }
